@@ -23,6 +23,8 @@ func init() {
 		},
 		Run: runC23,
 		Controls: []Control{
+			{Name: "teardown-stops-at-first-unconfigured-family", File: "protocols/bgp/server/fsm_established.go", Old: "\tif s.fsm.ipv4Unicast != nil {\n\t\ts.fsm.ipv4Unicast.dispose()\n\t}\n\n\tif s.fsm.ipv6Unicast != nil {\n\t\ts.fsm.ipv6Unicast.dispose()\n\t}\n", New: "\tfor _, f := range []*fsmAddressFamily{s.fsm.ipv4Unicast, s.fsm.ipv6Unicast} {\n\t\tif f == nil {\n\t\t\tbreak\n\t\t}\n\t\tf.dispose()\n\t}\n", Expect: "every-family-follows-the-session"},
+			{Name: "refactor-teardown-loops-over-the-families", Silent: true, File: "protocols/bgp/server/fsm_established.go", Old: "\tif s.fsm.ipv4Unicast != nil {\n\t\ts.fsm.ipv4Unicast.dispose()\n\t}\n\n\tif s.fsm.ipv6Unicast != nil {\n\t\ts.fsm.ipv6Unicast.dispose()\n\t}\n", New: "\tfor _, f := range []*fsmAddressFamily{s.fsm.ipv4Unicast, s.fsm.ipv6Unicast} {\n\t\tif f == nil {\n\t\t\tcontinue\n\t\t}\n\t\tf.dispose()\n\t}\n"},
 			{Name: "refactor-reject-returns-early-without-connection", Silent: true, File: "protocols/bgp/server/fsm_open_sent.go", Old: "\tif s.fsm.con != nil {\n\t\ts.fsm.sendNotification(packet.OpenMessageError, errorSubCode)\n\t\ts.fsm.con.Close()\n\t}\n", New: "\tif s.fsm.con == nil {\n\t\treturn newIdleState(s.fsm), reason\n\t}\n\ts.fsm.sendNotification(packet.OpenMessageError, errorSubCode)\n\ts.fsm.con.Close()\n"},
 			{Name: "openconfirm-anything-is-a-keepalive", File: "protocols/bgp/server/fsm_open_confirm.go", Old: "\tcase packet.KeepaliveMsg:\n\t\treturn s.keepaliveReceived()\n\tdefault:\n\t\treturn s.unexpectedMessage()\n", New: "\tcase packet.OpenMsg:\n\t\treturn s.unexpectedMessage()\n\tdefault:\n\t\treturn s.keepaliveReceived()\n", Expect: "transition-tied-to-message-type"},
 			{Name: "refactor-dispatch-by-if", Silent: true, File: "protocols/bgp/server/fsm_open_confirm.go", Old: "\tswitch msg.Header.Type {\n\tcase packet.NotificationMsg:\n\t\treturn s.notification(msg)\n\tcase packet.KeepaliveMsg:\n\t\treturn s.keepaliveReceived()\n\tdefault:\n\t\treturn s.unexpectedMessage()\n\t}\n", New: "\tif msg.Header.Type == packet.NotificationMsg {\n\t\treturn s.notification(msg)\n\t}\n\tif msg.Header.Type != packet.KeepaliveMsg {\n\t\treturn s.unexpectedMessage()\n\t}\n\treturn s.keepaliveReceived()\n"},
@@ -44,6 +46,8 @@ var rfcRelation = map[string][]string{
 }
 
 func runC23(c *core.Ctx) {
+	everyFamilyHandled(c, "every-family-follows-the-session", c.MustFunc(srv+".(*establishedState).init"), c.MustFunc(srv+".(*fsmAddressFamily).init"))
+	everyFamilyHandled(c, "every-family-follows-the-session", c.MustFunc(srv+".(*establishedState).uninit"), c.MustFunc(srv+".(*fsmAddressFamily).dispose"))
 	p := c.P
 	messageDispatch(c)
 	rets := fsmReturns(c)
